@@ -5,6 +5,8 @@ Tie: correspondences `load` (3 modes x 2 coercion) and `dump` (3 modes) of the m
 separately modelled folds, so a change to ONE code path breaks that path's correspondence.
 Direct oracle (real code only): run the three retorts on the same (type, datum); compare acceptance, value, and that the
 DISABLE / FIRST error corresponds to a leaf of the ALL error.
+`subclass_data_suite` feeds the same oracle with data whose nodes are instances of SUBCLASSES of the builtin types (harness/subdata.py):
+the `type(x) is T` / `isinstance(x, T)` / duck-typed tests the three programs repeat textually differ exactly there.
 """
 from harness import morph
 from harness.core import Ctx
@@ -35,7 +37,9 @@ CLAIM = {
     "design_ref": "DESIGN.md §4 C06",
 }
 RULE = ("generated types (depth<=3/4) x (valid | corrupted | hostile) data x 3 modes x 2 coercion; non-trivial = the datum is "
-        "rejected in at least one mode or the type nests containers")
+        "rejected in at least one mode or the type nests containers; + subclass-data: every iterable spelling x as-is element, "
+        "fixed-tuple matrix, field-less / all-optional models and generated types x data (and typed values for dumping) whose "
+        "nodes are instances of subclasses / look-alikes of the builtin types (oracle only: outside the model's value universe)")
 ASSUMPTIONS = ["scalar leaves do not depend on debug_trail", "no non-LoadError escapes (C04) — cases with an escape are C04's"]
 TRUSTED = []
 
@@ -79,13 +83,15 @@ def corresponds(single, all_err):
     return False
 
 
-def oracle_load(ctx: Ctx, rec: morph.LoadRecord):
+def oracle_load(ctx: Ctx, rec: morph.LoadRecord, extra=None, tag=""):
+    """`extra` is merged into the recorded case, `tag` is appended to the signatures (names the family of data)"""
     for strict in (True, False):
         outs = {m: rec.real[(m, strict)] for m in morph.MODES}
         if any(o["r"] == "no-loader" for o in outs.values()):
             continue
         case = {"hint": repr(rec.spec.hint)[:300], "ty": rec.spec.ty, "datum": morph.enc(rec.datum), "strict": strict,
-                "origin": rec.origin}
+                "origin": rec.origin, **(extra or {})}
+        on = f" on {extra['datum_shown'][:100]}" if extra and extra.get("datum_shown") else ""
         one_shot = morph.has_iter(case["datum"]) and morph.spec_has_union(rec.spec)
         if any(o["r"] == "escape" for o in outs.values()):
             # Lean: `escape_reaches_all` - an unexpected (non-LoadError) exception met by any mode is met by ALL, which inspects
@@ -93,7 +99,7 @@ def oracle_load(ctx: Ctx, rec: morph.LoadRecord):
             # admissible pattern with an escape is: ALL escapes too.
             if outs["ALL"]["r"] != "escape" and not one_shot:
                 sig = "accept-unexpected-error:class-object-datum" if isinstance(rec.datum, type) else \
-                    f"accept-unexpected-error:{rec.spec.kind.split(':')[0]}"
+                    f"accept-unexpected-error:{rec.spec.kind.split(':')[0]}{tag}"
                 ctx.fail(sig, f"an unexpected error escapes under some mode but ALL ends with {outs['ALL']['r']!r} for "
                          f"{repr(rec.spec.hint)[:120]} (strict={strict}): { {m: o['r'] for m, o in outs.items()} }",
                          dict(case, datum_is_class=isinstance(rec.datum, type)))
@@ -107,18 +113,18 @@ def oracle_load(ctx: Ctx, rec: morph.LoadRecord):
                          f"a one-shot iterator under a Union is consumed differently by the modes: {kinds} for "
                          f"{repr(rec.spec.hint)[:120]}", case)
                 continue
-            ctx.fail(f"accept:{rec.spec.kind.split(':')[0]}",
-                     f"modes disagree on acceptance for {repr(rec.spec.hint)[:120]} (strict={strict}): {kinds}", case)
+            ctx.fail(f"accept:{rec.spec.kind.split(':')[0]}{tag}",
+                     f"modes disagree on acceptance for {repr(rec.spec.hint)[:120]} (strict={strict}){on}: {kinds}", case)
             continue
         if one_shot:
             continue
         if kinds["ALL"] == "ok":
             if not (outs["DISABLE"] == outs["FIRST"] == outs["ALL"]):
-                ctx.fail(f"value:{rec.spec.kind.split(':')[0]}", f"modes return different values for {repr(rec.spec.hint)[:120]}", case)
+                ctx.fail(f"value:{rec.spec.kind.split(':')[0]}{tag}", f"modes return different values for {repr(rec.spec.hint)[:120]}{on}", case)
         else:
             for m in ("DISABLE", "FIRST"):
                 if not corresponds(outs[m]["e"], outs["ALL"]["e"]):
-                    ctx.fail(f"error-correspondence:{m}:{outs[m]['e']['cls']}",
+                    ctx.fail(f"error-correspondence:{m}:{outs[m]['e']['cls']}{tag}",
                              f"the {m} error {outs[m]['e']['cls']} of {repr(rec.spec.hint)[:100]} is not among the errors "
                              f"collected under ALL", dict(case, single=outs[m]["e"], all=outs["ALL"]["e"]))
 
@@ -308,6 +314,115 @@ def optional_model_loads(ctx: Ctx, eng: morph.Engine, n: int):
                                  f"{ {m: o['v'] for m, o in outs.items()} }"[:300], case)
 
 
+def _load_sub(eng: morph.Engine, mode, strict, hint, make):
+    """one real load of a freshly built datum; values in the subclass-preserving comparison form"""
+    from adaptix import ProviderNotFoundError
+    from adaptix.load_error import LoadError
+
+    from extract import scalars as X
+    from harness import subdata
+    try:
+        ld = eng.real.loader(mode, strict, hint)
+    except ProviderNotFoundError:
+        return {"r": "no-loader"}
+    except Exception as e:  # noqa: BLE001
+        return {"r": "escape", "exc": X.exc_name(type(e)), "at": "loader-creation"}
+    datum = make()
+    try:
+        v = ld(datum)
+    except LoadError as e:
+        return {"r": "err", "e": morph.canon_err(morph.enc_err(e, None))}
+    except Exception as e:  # noqa: BLE001
+        return {"r": "escape", "exc": X.exc_name(type(e))}
+    return {"r": "ok", "v": subdata.enc2(v)}
+
+
+def subclass_data_suite(ctx: Ctx, eng: morph.Engine, n: int, depth: int):
+    """data that are instances of SUBCLASSES of the builtin types the loaders test for (user subclasses of str / int / float /
+    bytes / list / tuple / dict / set / frozenset / deque, (str, Enum) / IntEnum / IntFlag members, namedtuples, OrderedDict /
+    defaultdict / Counter) and their collections look-alikes (UserString / UserList / UserDict, mappingproxy, ChainMap), for
+    every iterable spelling x as-is element kind, the fixed-tuple matrix and generated types (scalars, literals, dicts, unions,
+    models, nested), both coercion modes: (a) a valid datum with some nodes turned into same-valued subclass instances, (b) a
+    valid datum with a node (often the root) replaced by a subclass instance of ANOTHER shape (a str subclass where a list is
+    expected, ...). Oracle = the three-mode agreement of `oracle_load` on the real retorts. The Lean value universe has no
+    'instance of a subclass' tag, so these data are not sent to the model (counted as outside-model-universe)."""
+    from harness import subdata
+    rng = ctx.rng
+    specs = eng.gen_specs(n, depth, iter_matrix=True, tuple_matrix=True)
+    # models whose generated loader has NO required key to look up first (no field / only optional fields): the only type test
+    # of the input is the explicit one
+    tg = morph.TypeGen(rng)
+    for i, fields in enumerate(([], [("a0", tg.scalar("int"), False)], [("a0", tg.scalar("int"), False), ("b1", tg.scalar("str"), False)])):
+        m = tg.model_of(f"SubM{i}", list(fields))
+        specs += [m, tg.wrap("list", m), tg.wrap("dict", m), tg.wrap("model", m)]
+    for spec in specs:
+        if eng.real.load("DISABLE", True, spec.hint, None).get("r") == "no-loader":
+            ctx.dist["skipped:no-loader"] += 1
+            continue
+        bases = [d for _, d, _ in eng.data_for(spec, n_valid=2, n_corrupt=0, n_hostile=0)]
+        bases = [b for b in bases if not morph.has_iter(morph.enc(b))][:2] or [rng.choice([[], {}, "ab", [1, "a"], {"a": 1}])]
+        plans = []
+        for base in bases:
+            nn = subdata.n_nodes(base)
+            pick = lambda k: frozenset(rng.sample(range(nn), min(nn, k)))  # noqa: E731
+            plans += [(base, pick(rng.choice([1, 1, 2, 3])), frozenset()),
+                      (base, frozenset(range(nn)) if nn <= 12 else pick(6), frozenset()),
+                      (base, frozenset(), pick(1)),
+                      (base, pick(rng.choice([1, 2])), pick(1))]
+        plans.append((bases[0], frozenset(), frozenset({0})))
+        plans.append((bases[-1], frozenset(), frozenset({0})))
+        for base, sub_at, plant_at in plans:
+            seed = rng.getrandbits(32)
+            make = lambda: subdata.build(seed, base, sub_at, plant_at)[0]  # noqa: E731
+            datum, changed = subdata.build(seed, base, sub_at, plant_at)
+            if not changed:
+                ctx.dist["subclass-data:nothing-to-rewrite"] += 1
+                continue
+            rec = morph.LoadRecord(spec=spec, datum=datum, origin="subclass", real={}, model={})
+            for (m, s) in morph.CONFIGS:
+                rec.real[(m, s)] = _load_sub(eng, m, s, spec.hint, make)
+            ctx.dist["outside-model-universe"] += 1
+            rejected = any(o["r"] != "ok" for o in rec.real.values())
+            shown = subdata.show(datum)[:300]
+            ctx.note_case({"t": spec.ty, "d": shown, "suite": "subclass-data"}, nontrivial=True,
+                          kind=("subclass-data:same-shape:" if not plant_at else "subclass-data:planted:")
+                          + ("rejected" if rejected else "accepted"))
+            oracle_load(ctx, rec, extra={"suite": "subclass-data", "datum_shown": shown}, tag=":subclass-datum")
+        # dumping: typed values with nodes turned into subclass instances / replaced by foreign subclass instances
+        if eng.real.dump("DISABLE", True, spec.hint, None).get("r") == "no-dumper":
+            continue
+        for _ in range(3):
+            try:
+                x = spec.gen(rng)
+            except Exception:  # noqa: BLE001
+                continue
+            nn = subdata.n_nodes(x)
+            sub_at = frozenset(rng.sample(range(nn), min(nn, rng.choice([1, 2, 3]))))
+            plant_at = frozenset(rng.sample(range(nn), 1)) if rng.random() < 0.3 else frozenset()
+            seed = rng.getrandbits(32)
+            try:
+                value, changed = subdata.build(seed, x, sub_at, plant_at)
+            except TypeError:   # an unhashable rewrite inside a set element / key of the typed value
+                continue
+            if not changed:
+                continue
+            outs = {}
+            for m in morph.MODES:
+                try:
+                    outs[m] = ("ok", subdata.enc2(eng.real.dumper(m, True, spec.hint)(subdata.build(seed, x, sub_at, plant_at)[0])))
+                except Exception as e:  # noqa: BLE001
+                    outs[m] = ("fail", type(e).__name__)
+            kinds = {m: o[0] for m, o in outs.items()}
+            case = {"suite": "subclass-data", "hint": repr(spec.hint)[:300], "ty": spec.ty, "value_shown": subdata.show(value)[:300]}
+            ctx.note_case(case, nontrivial=True, kind="subclass-data:dump:" + kinds["ALL"])
+            if len(set(kinds.values())) != 1:
+                ctx.fail(f"dump-accept:{spec.kind.split(':')[0]}:subclass-datum",
+                         f"modes disagree on whether dumping {case['value_shown'][:120]} as {repr(spec.hint)[:100]} succeeds: {outs}"[:400], case)
+            elif kinds["ALL"] == "ok" and not (outs["DISABLE"] == outs["FIRST"] == outs["ALL"]):
+                ctx.fail(f"dump-value:{spec.kind.split(':')[0]}:subclass-datum",
+                         f"modes dump {case['value_shown'][:120]} as {repr(spec.hint)[:100]} to different values", case)
+
+
 def run(ctx: Ctx):
     eng = morph.Engine(ctx)
     one_shot_union_probe(ctx, eng)
@@ -335,6 +450,8 @@ def run(ctx: Ctx):
             ctx.fail(f"dump-accept:{rec['spec'].kind.split(':')[0]}", f"modes disagree on whether dumping succeeds: {kinds}", case)
         elif kinds["ALL"] == "ok" and not (outs["DISABLE"] == outs["FIRST"] == outs["ALL"]):
             ctx.fail(f"dump-value:{rec['spec'].kind.split(':')[0]}", "modes dump different values", case)
+    # last, so that the random streams of the suites above are the ones they had before this suite existed
+    subclass_data_suite(ctx, eng, ctx.budget(100, 800), 3 if ctx.tier == "quick" else 4)
 
 
 def search(ctx: Ctx):
@@ -345,6 +462,7 @@ def search(ctx: Ctx):
     specs = eng.gen_specs(1500, 4, user_leaves=True, tuple_matrix=True)
     for rec in eng.load_records(specs, n_valid=2, n_corrupt=4, n_hostile=3):
         oracle_load(ctx, rec)
+    subclass_data_suite(ctx, eng, 600, 4)
 
 
 def replay(ctx: Ctx, case) -> bool:
